@@ -43,9 +43,14 @@ def make_spec(src):
     return spec, spec.workload.einsums[0].name
 
 
-def inject(arch, symbolic_scales, valuation=None):
+ZERO_PATTERNS = ["none", "energy_first_action", "energy_last_action", "area", "leak_power"]
+
+
+def inject(arch, symbolic_scales, valuation=None, zero="none"):
     """Replace cost fields by symbols (valuation None) or numbers (replay).  Scale kinds not in
-    `symbolic_scales` are the literal 1 (the code's `!= 1` fast path)."""
+    `symbolic_scales` are the literal 1 (the code's `!= 1` fast path).  `zero`: which cost fields
+    are the literal 0 / inf instead (free actions, zero area and leak are common in the example
+    architectures, and code that tests a cost for truthiness only shows on them)."""
     def val(name, is_scale_kind=None):
         if is_scale_kind is not None and is_scale_kind not in symbolic_scales:
             return 1
@@ -53,16 +58,20 @@ def inject(arch, symbolic_scales, valuation=None):
             return sympy.Symbol(name, positive=True)
         return float(valuation.get(name, 1))
     for c in components(arch):
-        c.area = val(f"area_{c.name}")
-        c.leak_power = val(f"leak_{c.name}")
+        c.area = 0 if zero == "area" else val(f"area_{c.name}")
+        c.leak_power = 0 if zero == "leak_power" else val(f"leak_{c.name}")
         c.area_scale = val(f"as_{c.name}", "area_scale")
         c.leak_power_scale = val(f"ls_{c.name}", "leak_power_scale")
         c.energy_scale = val(f"es_{c.name}", "energy_scale")
         c.throughput_scale = val(f"ts_{c.name}", "throughput_scale")
         c.n_parallel_instances = val(f"np_{c.name}", "n_parallel_instances")
-        for a in c.actions:
+        for ai, a in enumerate(c.actions):
             a.energy = val(f"e_{c.name}_{a.name}")
             a.throughput = val(f"t_{c.name}_{a.name}")
+            if (zero == "energy_first_action" and ai == 0) or (zero == "energy_last_action" and ai == len(c.actions) - 1 and len(c.actions) > 1):
+                a.energy = 0
+            if zero == "throughput_inf_first_action" and ai == 0:
+                a.throughput = float("inf")
             a.energy_scale = val(f"aes_{c.name}_{a.name}", "act.energy_scale")
             a.throughput_scale = val(f"ats_{c.name}_{a.name}", "act.throughput_scale")
 
@@ -83,16 +92,16 @@ def snapshot(arch):
 FIELD_FLAG = lambda f: ("area" if "area" in f else "leak" if "leak" in f else "energy" if f.endswith("energy") else "throughput")
 
 
-def history_run(src, symbolic_scales, history, valuation=None, public=False):
+def history_run(src, symbolic_scales, history, valuation=None, public=False, zero="none"):
     """history: list of flag-sets (each a frozenset of FLAGS).  Returns the snapshots after
     each call.  public=True drives the unevaluated spec (replay through the public API)."""
     spec, einsum = make_spec(src)
     if public:
         cur = spec
-        inject(cur.arch, symbolic_scales, valuation)
+        inject(cur.arch, symbolic_scales, valuation, zero)
     else:
         cur = spec._spec_eval_expressions(einsum_name=einsum)
-        inject(cur.arch, symbolic_scales, valuation)
+        inject(cur.arch, symbolic_scales, valuation, zero)
     snaps = []
     for flags in history:
         cur = cur.calculate_component_costs(einsum_name=einsum, **{f: (f in flags) for f in FLAGS})
@@ -116,11 +125,11 @@ def obligations_for(snaps, history):
 
 
 def shard(payload):
-    src, symbolic_scales, history, label = payload
+    src, symbolic_scales, history, label, zero = payload
     st = Stats()
     st.instantiations = 1
     t0 = time.time()
-    snaps = history_run(src, symbolic_scales, history)
+    snaps = history_run(src, symbolic_scales, history, zero=zero)
     obs = obligations_for(snaps, history)
     st.encode_s += time.time() - t0
     tr = Tr()
@@ -156,16 +165,16 @@ def shard(payload):
     if bad:
         d, vals, fa, fb = bad[0]
         # replay through the public API on numbers
-        snaps_c = history_run(src, symbolic_scales, history, valuation=vals, public=True)
+        snaps_c = history_run(src, symbolic_scales, history, valuation=vals, public=True, zero=zero)
         st.replays += 1
         diffs = []
         for dd, a, b in obligations_for(snaps_c, history):
-            if abs(a - b) > 1e-9 * max(abs(a), abs(b), 1e-300):
+            if a != b and abs(a - b) > 1e-9 * max(abs(a), abs(b), 1e-300):
                 diffs.append(dict(field=dd, before=a, after=b))
         if not diffs:
             raise HarnessError(f"model for '{d}' does not reproduce through the public API: {vals}")
         kinds = sorted({f["field"].split(" ")[0].split(".")[-1] for f in diffs})
-        violations.append(dict(property=PID, instantiation=label, src=src, symbolic_scales=sorted(symbolic_scales),
+        violations.append(dict(property=PID, instantiation=label, src=src, symbolic_scales=sorted(symbolic_scales), zero=zero,
                                history=[sorted(h) for h in history], values=vals, failing=diffs[:12],
                                symbolic_before=fa, symbolic_after=fb,
                                what=f"repeated calculate_component_costs changes {kinds}"))
@@ -194,7 +203,11 @@ def instantiations(tier):
             for hi, h in enumerate(histories):
                 name = src[1] if src[0] == "yaml" else tree_str(src[1])
                 label = f"{name} | symbolic scales: {','.join(sorted(sc)) or 'none (all literal 1)'} | history: {[''.join(x[0] for x in sorted(f)) for f in h]}"
-                out.append((src, sc, h, label))
+                out.append((src, sc, h, label, "none"))
+        # literal-zero / inf cost patterns, all scales symbolic
+        for z in ZERO_PATTERNS[1:]:
+            for h in histories[:2]:
+                out.append((src, frozenset(SCALES), h, f"{name} | all scales symbolic | literal {z} | history: {[''.join(x[0] for x in sorted(f)) for f in h]}", z))
     return out
 
 
@@ -204,10 +217,10 @@ def run(args):
         v = json.load(open(args.replay))
         src = tuple(v["src"]) if v["src"][0] == "yaml" else ("tree", v["src"][1])
         hist = [frozenset(h) for h in v["history"]]
-        snaps = history_run(src, frozenset(v["symbolic_scales"]), hist, valuation=v["values"], public=True)
+        snaps = history_run(src, frozenset(v["symbolic_scales"]), hist, valuation=v["values"], public=True, zero=v.get("zero", "none"))
         bad = 0
         for d, a, b in obligations_for(snaps, hist):
-            ok = abs(a - b) <= 1e-9 * max(abs(a), abs(b), 1e-300)
+            ok = a == b or abs(a - b) <= 1e-9 * max(abs(a), abs(b), 1e-300)
             bad += not ok
             print(("OK  " if ok else "DIFF"), d, a, b)
         return 1 if bad else 0
@@ -232,6 +245,7 @@ def run(args):
                     architectures="examples/arches/simple, tpu_v4i, tests/input_files/toll.arch + generated trees",
                     symbolic="area, leak_power, action energy/throughput and all seven scale kinds: positive reals, unbounded",
                     scale_instantiations="all symbolic / all literal 1 / each kind alone symbolic",
+                    literal_cost_patterns=ZERO_PATTERNS,
                     outside="costs obtained from hwcomponents models (component_class) - every cost is given explicitly"),
         assumptions=["hwcomponents models bypassed: every component carries explicit costs",
                      "only fields that an earlier call of the history computed are compared"],
